@@ -108,7 +108,7 @@ PartRecords(c, f) ==
 
 \* ------------------------------------------------------------------ what a load must return
 \* A request (the abstract form of load()'s arguments):
-\*   lv   : <<lo, hi>> level interval accepted by the level predicate, or <<>>
+\*   lv   : <<lo, hi>> level interval accepted by the level predicate (<<lo, hi, ex>>: all of lo..hi but ex < hi), or <<>>
 \*   pos  : per axis <<lo, hi>> (closed interval on the lattice) or <<>> for no predicate on that axis
 \*   val  : <<hydro variable index, threshold token, "gt"|"le">> or <<>>
 \*   cpus : explicit cpu list or <<>>
@@ -117,7 +117,7 @@ Lmax(c, req) == IF req.lv = <<>> THEN c.levelmax ELSE (IF req.lv[2] < c.levelmax
 IsLeaf(c, o, ind, lmax) == ~(Oct(c, o).son[ind] > 0 /\ Oct(c, o).level < lmax)
 HydroTok(c, o, ind, v) == Tok(0, o, ind - 1, v)
 Qualifies(c, req, o, ind) ==
-  /\ req.lv = <<>> \/ (Oct(c, o).level >= req.lv[1] /\ Oct(c, o).level <= req.lv[2])
+  /\ req.lv = <<>> \/ (Oct(c, o).level >= req.lv[1] /\ Oct(c, o).level <= req.lv[2] /\ (Len(req.lv) < 3 \/ Oct(c, o).level # req.lv[3]))
   /\ \A d \in 1..c.ndim : req.pos[d] = <<>> \/ (CellPos(c, o, ind - 1, d) >= req.pos[d][1] /\ CellPos(c, o, ind - 1, d) <= req.pos[d][2])
   /\ req.val = <<>> \/ (IF req.val[3] = "gt" THEN HydroTok(c, o, ind, req.val[1]) > req.val[2] ELSE HydroTok(c, o, ind, req.val[1]) <= req.val[2])
 CpuSeq(c, req) == IF req.cpus = <<>> THEN [f \in 1..c.ncpu |-> f] ELSE req.cpus
